@@ -23,6 +23,7 @@ def S(name, run, quick=None, thorough=None, shards=(1, 16), race=False, tiers=("
 
 STAGES = {
     "C07": [S("regress", "^TestC07Regress$"),
+            S("lag", "^TestC07Lag$"),
             S("machine", "^TestC07$", quick=250, thorough=4000, shards=(6, 16), timeout=("15m", "90m")),
             S("parallel-race", "^TestC07Parallel$", quick=80, thorough=2000, shards=(4, 16), race=True, timeout=("15m", "90m"))],
     "C08": [S("regress", "^TestC08Regress$"),
@@ -50,13 +51,15 @@ STAGES = {
             S("stream", "^TestC18$", quick=600, thorough=30000, shards=(4, 16)),
             S("deadlines", "^TestC18Deadlines$", quick=3000, thorough=100000, shards=(2, 16))],
     "C16": [S("regress", "^TestC16Regress$"),
+            S("lag", "^TestC16Lag$"),
             S("schedules", "^TestC16$", quick=3000, thorough=150000, shards=(4, 16)),
             S("schedules-race", "^TestC16$", quick=300, thorough=20000, shards=(2, 16), race=True)],
     "C17": [S("grid", "^TestC17$", shards=(4, 16)),
             S("neighbours", "^TestC17Neighbours$|^TestC17Large$")],
     "C01": [S("sweep", "^TestC01Sweep$", shards=(3, 9)),
             S("roundtrip", "^TestC01$", quick=250, thorough=4000, shards=(6, 16), timeout=("15m", "90m"))],
-    "C02": [S("programs", "^TestC02$", quick=1500, thorough=200000, shards=(4, 16))],
+    "C02": [S("lag", "^TestC02Lag$"),
+            S("programs", "^TestC02$", quick=1500, thorough=200000, shards=(4, 16))],
     "C03": [S("regress", "^TestC03Regress$|^TestC03Flood$"),
             S("structured", "^TestC03$", quick=1500, thorough=10000, shards=(4, 16)),
             S("raw", "^TestC03Raw$", quick=8000, thorough=60000, shards=(4, 16)),
